@@ -18,6 +18,7 @@ EXTRA = {
     "C06-i": ["C07", "C13"], "C06-j": ["C13"], "C13-i": ["C06", "C17"], "C13-j": ["C06"], "C14-i": ["C13", "C02"], "C14-j": ["C10"],
     "C12-y": ["C10"], "C12-z": ["C10"], "C16-y": ["C19", "C04"], "C16-z": ["C19", "C01"], "C18-y": ["C16", "C08"], "C18-z": ["C16", "C08"], "C10-y": ["C12", "C01"], "C10-z": ["C12", "C01"],
     "C19-y": ["C04", "C08"], "C11-y": ["C16", "C19"],
+    "C17-y": ["C06"], "C09-y": ["C01", "C03"],
     "R1": ["C01", "C05", "C08"], "R2": [], "R3": ["C06"], "R4": ["C06"],  # additional checks worth running per seed (besides the seed's own property)
     "C01-a": ["C04", "C05"], "C01-b": ["C02", "C07"], "C02-a": ["C07"], "C02-b": ["C08", "C19"], "C03-a": ["C15"], "C03-b": ["C06"],
     "C04-b": ["C06"], "C05-a": ["C06"], "C05-b": ["C06", "C09"], "C06-a": ["C04"], "C06-b": [], "C07-a": ["C02"], "C07-b": ["C06"],
